@@ -27,6 +27,7 @@ CLAIMS = {
  "C18": "Proved under the monitored pokerface contract PF.wf: every raise / bet the bot's dice can choose is allowed, non-empty, accepted by the engine's guards, within the stack and (all-in or) at least the minimum; every other move is an allowed kind; ready / pass / the posted payment otherwise; non-empty move set whenever asked; silent when not at the table, not seated-in, no hand, stale or repeated view, table not playing, not dealt in. Real bots on real tables every run: each move must be in the modelled set and accepted, each all-bot hand must settle.",
  "C19": "Proved for every hand state: auto-play yields ready, check, fold, a payment of exactly the posted ante / blind, or nothing — never call / bet / raise / all-in — with the precedence ready > check > fold > pay; pass at once; suspended: at once; otherwise the time bank is armed with the action time and nothing happens before. Order of the if-chain is a regenerated fact; real playerRunner compared on thousands of real states incl. timed cases.",
  "C20": "Proved: for every hand state and any table status a non-system observer is shown no deck, no burned cards, no hole cards / strength while the hand runs and none of folded players after it closed (filter condition is a regenerated fact; AsObserver is a monitored contract); in the heap model of the adapter's marshal/unmarshal copy a write through one actor's copy reaches nobody else. Partial: aliasing itself is checked at run time (pointers, byte equality, tamper test) on every case.",
+ "C16": "Partial (a theorem cannot exhibit a schedule). Proved: the lock discipline over regenerated facts; a successful fixed or random assignment never touches an occupied seat and a refused one changes nothing; the ledger balances after every sequence (hence every order of racing calls); a wager action is accepted only from the current player of the state it meets, so two different players cannot both be accepted against one state. Searched every run: goroutine bursts linearised from in-lock notifications and replayed through the TB model (every intermediate and the final state incl. seat manager), simultaneous submissions at every betting decision, parallel seat-manager assignments; process crash = observation.",
  "C17": "Forwarding discipline decided over the whole regenerated manager table (every method: lookup, not-found error, same-named engine method, arguments in order, returns its result; exactly Close/Release delete, after the call); isolation / forwarding / not-found / forgotten-after-close proved for the registry model over an arbitrary engine.",
 }
 
